@@ -228,6 +228,9 @@ class CompositeFrontend(ConstrainedFrontend):
                     if ss in done:
                         continue
                     done.add(ss)
+                    if len(ss.variables) == 0:
+                        # a part without variables (its constraints simplified away) has no child to update
+                        continue
                     v = min(iter(ss.variables))
                     self._solvers[v].update(ss)
             else:
